@@ -171,6 +171,14 @@ fn call_int(args: &[Object]) -> Result<Object, Error> {
         }
     };
 
+    // integers only have 61 bits
+    if !(crate::object::MIN_INT..=crate::object::MAX_INT).contains(&result) {
+        return Err(Error::ArgumentError(format!(
+            "{} past niet in een geheel getal",
+            args[0]
+        )));
+    }
+
     Ok(Object::int(result))
 }
 
